@@ -35,11 +35,21 @@ StringNewtype(item) == item.kind = "struct" /\ item.shape = "tuple" /\ Len(item.
 DerivedTwice(item) == \/ \E a, b \in DOMAIN item.derives : a < b /\ item.derives[a] = item.derives[b]
                       (* ... or derived and also implemented by hand for the same type *)
                       \/ ("derive_conflicts" \in DOMAIN item /\ Len(item.derive_conflicts) > 0)
+(* the promised traits, as the rendered item shows them: Clone, Debug and Serialize derived,
+   Deserialize derived or implemented by hand (the validating implementation) - by the paths typify
+   emits, so that a foreign macro of the same short name does not count *)
+PromisedShown(item) ==
+    LET ds == Range(item.derives)
+        manual == IF "manual_impls" \in DOMAIN item THEN Range(item.manual_impls) ELSE {} IN
+    /\ "Clone" \in ds /\ "Debug" \in ds /\ "::serde::Serialize" \in ds
+    /\ ("::serde::Deserialize" \in ds \/ "serde::Deserialize" \in manual)
 C19_DeriveBad(items) ==
-    { i \in DOMAIN items : items[i].mod = "" /\ items[i].kind \in {"struct", "enum"} /\ DerivedTwice(items[i]) }
+    { i \in DOMAIN items : items[i].mod = "" /\ items[i].kind \in {"struct", "enum"}
+                           /\ (DerivedTwice(items[i]) \/ ~PromisedShown(items[i])) }
 C19_ItemDiag(item, decl, failed) ==
     IF item.vis # "pub" THEN "C19/NotPublic"
     ELSE IF DerivedTwice(item) THEN "C19/TraitDerivedTwice"
+    ELSE IF ~PromisedShown(item) THEN "C19/PromisedTraitNotDerived"
     ELSE IF BoundDeclared(decl, item.name, "promised") /\ ~BoundHolds(decl, failed, item.name, "promised")
          THEN "C19/PromisedTraitMissing"
     ELSE IF item.kind = "enum" /\ AllUnit(item) /\ BoundDeclared(decl, item.name, "copy")
